@@ -8,7 +8,8 @@ from . import partops
 ID = "C03"
 LEVEL = "model_checking"
 RULE = ("Part A: every sequence of up to N operations deepen()/make_children(leaf, newlayer = leaf at deepest level) on "
-        "each of the 11 partition variants, RNG answers deviating from the default in <= k places; part B: every reward "
+        "each of the 11 partition variants, RNG answers deviating from the default in <= k places, plus (E-dive) root-to-leaf chains of 70 (thorough 140) "
+        "expansions along 4 descent patterns (cell indices beyond 2^64) in dimension 1..3; part B: every reward "
         "sequence in R^T (E-full) and every script within k deviations of a base script (E-dev) for every tree-building "
         "algorithm; get_last_point() may be called after any round (a choice point; <= 1-2 per run); the index/tree invariant is evaluated after every operation / round.  distinct_nontrivial = distinct "
         "final tree states (part A) or executions with at least one expansion below the deepest level or >= 2 expansions (part B).")
@@ -35,6 +36,7 @@ def tasks(tier, seed):
     ts = []
     boxes = ("u1", "u2") if tier == "quick" else ("u1", "u2", "mix2", "u3")
     ts += partops.ops_tasks(tier, [(b, configs.BOXES[b]) for b in boxes], ["C03"])
+    ts += partops.dive_tasks(tier, [(b, configs.BOXES[b]) for b in ("u1", "u2", "u3")], ["C03"])
     for label, cfg in _algo_cfgs():
         vroom = cfg["algo"] == "VROOM"
         T = 6 if tier == "quick" else 8
@@ -75,6 +77,8 @@ def _nontrivial(ctx):
 def run_task(task):
     if task["kind"] == "ops":
         return partops.run_task(task)
+    if task["kind"] == "dive":
+        return partops.run_dive(task)
     st = run_algo_task(task, _mk, nontrivial=_nontrivial)
     if st.counters.get("expansions_below_deepest"):
         st.bump("make_children_below_deepest", st.counters["expansions_below_deepest"])
@@ -84,11 +88,13 @@ def run_task(task):
 def replay(task, script):
     if task["kind"] == "ops":
         return partops.replay(task, script)
+    if task["kind"] == "dive":
+        return partops.replay_dive(task, script)
     return replay_algo(task, script, _mk)
 
 
 def bounds(tier):
-    return {"part_A_ops_N": "3..5 by arity" if tier == "quick" else "4..6 by arity", "part_A_rng_deviations": 1 if tier == "quick" else 2,
+    return {"dive_depth": 70 if tier == "quick" else 140, "part_A_ops_N": "3..5 by arity" if tier == "quick" else "4..6 by arity", "part_A_rng_deviations": 1 if tier == "quick" else 2,
             "part_B_full_T": 6 if tier == "quick" else 8, "part_B_full_rewards": list(configs.R2),
             "part_B_dev_T": 40 if tier == "quick" else 100, "part_B_dev_k": 1 if tier == "quick" else 2,
             "partitions": [list(p) for p in configs.PART_VARIANTS]}
